@@ -40,7 +40,7 @@ pub fn journal_mode() -> bool {
 
 /// seconds a single case may take before it counts as a hang
 pub fn hang_limit_s() -> u64 {
-    std::env::var("VX_HANG_S").ok().and_then(|s| s.parse().ok()).unwrap_or(60)
+    std::env::var("VX_HANG_S").ok().and_then(|s| s.parse().ok()).unwrap_or(20)
 }
 
 /// Called by a worker when it starts a case. `describe` (evaluated in journal
